@@ -21,6 +21,8 @@ import (
 	"errors"
 	"fmt"
 	"log"
+
+	"github.com/dgraph-io/badger/v4/verifhook"
 )
 
 var debugMode = false
@@ -40,6 +42,7 @@ func Check2(_ interface{}, err error) {
 // AssertTrue asserts that b is true. Otherwise, it would log fatal.
 func AssertTrue(b bool) {
 	if !b {
+		verifhook.AssertFailed()
 		log.Fatalf("%+v", errors.New("Assert failed"))
 	}
 }
@@ -47,6 +50,7 @@ func AssertTrue(b bool) {
 // AssertTruef is AssertTrue with extra info.
 func AssertTruef(b bool, format string, args ...interface{}) {
 	if !b {
+		verifhook.AssertFailed()
 		log.Fatalf("%+v", fmt.Errorf(format, args...))
 	}
 }
